@@ -314,22 +314,24 @@ theorem partition_ok (n : Nat) (rb rf : List Nat) (small : Nat → Bool)
         g ∈ (mkPart n (some rb) rf small).rb) ∧
     (∀ g, g ∈ take (mkPart n (some rb) rf small).nonrf (mkPart n (some rb) rf small).el' ↔
         g ∈ (mkPart n (some rb) rf small).el) := by
-  have hrbdef : (mkPart n (some rb) rf small).rb = rb := rfl
+  have hrbmem : ∀ g, g ∈ (mkPart n (some rb) rf small).rb ↔ g ∈ rb := fun g => by
+    show g ∈ sortNat rb ↔ _
+    exact mem_sortNat
   have hrfdef : (mkPart n (some rb) rf small).rf = rf := rfl
   refine ⟨fun i hi => ?_, fun i h => ?_, fun i h => ?_, fun i h => ?_, fun g => ?_, fun g => ?_⟩
-  · rw [hrbdef, hrfdef, mem_el]
+  · rw [hrbmem, hrfdef, mem_el]
     by_cases h1 : i ∈ rb
     · exact Or.inl h1
     · by_cases h2 : i ∈ rf
       · exact Or.inr (Or.inr h2)
       · exact Or.inr (Or.inl ⟨hi, h2, h1⟩)
-  · rw [hrbdef, mem_el] at h
+  · rw [hrbmem, mem_el] at h
     exact h.2.2.2 h.1
   · rw [hrfdef, mem_el] at h
     exact h.1.2.1 h.2
-  · rw [hrbdef, hrfdef] at h
+  · rw [hrbmem, hrfdef] at h
     exact hdis i h.1 h.2
-  · rw [hrbdef]
+  · rw [hrbmem]
     show g ∈ take (nonrf n rf) (relWhere (nonrf n rf) rb.contains) ↔ g ∈ rb
     rw [mem_take_relWhere, mem_nonrf]
     simp only [List.contains_eq_mem, decide_eq_true_eq]
